@@ -367,12 +367,19 @@ func (jenny RawTypes) fromJSONForType(context languages.Context, typeDef ast.Typ
 			return fromJSONCode{DecodingCall: inputVar}
 		}
 
+		// every nesting level needs its own loop variable: the value expression
+		// of an inner comprehension still refers to the keys of the outer ones.
+		keyVar := "key"
+		if depth := strings.Count(hint, "_map"); depth > 0 {
+			keyVar = fmt.Sprintf("key%d", depth)
+		}
+
 		valueType := typeDef.Map.ValueType
-		valueTypeFromJSON := jenny.fromJSONForType(context, valueType, inputVar+"[key]", hint+"_map")
+		valueTypeFromJSON := jenny.fromJSONForType(context, valueType, inputVar+"["+keyVar+"]", hint+"_map")
 
 		return fromJSONCode{
 			Setup:        valueTypeFromJSON.Setup,
-			DecodingCall: fmt.Sprintf(`{key: %[2]s for key in %[1]s.keys()}`, inputVar, valueTypeFromJSON.DecodingCall),
+			DecodingCall: fmt.Sprintf(`{%[3]s: %[2]s for %[3]s in %[1]s.keys()}`, inputVar, valueTypeFromJSON.DecodingCall, keyVar),
 		}
 	} else if typeDef.IsDisjunction() {
 		return jenny.disjunctionFromJSON(context, typeDef, inputVar, hint+"_union")
